@@ -4,6 +4,8 @@ import (
 	"encoding/json"
 	"fmt"
 	"math/rand"
+	"os"
+	"path/filepath"
 	"strings"
 	"time"
 
@@ -114,7 +116,8 @@ func runPipelineBehaviours(c *ev.Ctx, unpubOn bool, behaviours [][]pipe.Step, no
 			if r != nil && (strings.Contains(r.Output, "TraceAccepted") || strings.Contains(r.Output, "ostcondition")) {
 				return r, false
 			}
-			ev.Fatal("TLC pipeline trace validation: %v", err)
+			_ = os.WriteFile(filepath.Join(ev.Root, ".work", "failed_pipeline_trace.ndjson"), []byte(nd), 0o644)
+			ev.Fatal("TLC pipeline trace validation (trace kept in .work/failed_pipeline_trace.ndjson): %v", err)
 		}
 		return r, r.InvariantViolated == ""
 	}
